@@ -18,6 +18,7 @@ pub struct FnSpec {
     pub after_let: Vec<(String, String)>,
     pub ret_hint: String,
     pub loops: BTreeMap<usize, String>,
+    pub loops_cond: BTreeMap<usize, String>,
     pub no_autopost: bool,
     pub cfg: Option<String>,
     pub props: Vec<String>,
@@ -44,6 +45,7 @@ pub struct Unit {
     pub refcell_mut_fns: Vec<String>,
     pub refcell_mut_unless: Vec<(String, String)>,
     pub refcell_fields: Vec<String>,
+    pub copy_borrow: Vec<(String, String)>,
     pub outline_contains: Vec<String>,
     pub ghost_fields: Vec<(String, String, String, String, String)>, // struct, feature, name, type, init
     pub ghost_args: Vec<(String, String, String)>, // feature, method, extra argument
@@ -127,7 +129,7 @@ pub fn parse_unit(text: &str) -> Unit {
             s if s.starts_with("before-call ") => spec.before_call.last_mut().unwrap().1.push_str(&l),
             s if s.starts_with("after-call ") => spec.after_call.last_mut().unwrap().1.push_str(&l),
             s if s.starts_with("after-let ") => spec.after_let.last_mut().unwrap().1.push_str(&l),
-            s if s.starts_with("loop ") => { let n: usize = s[5..].trim().parse().unwrap(); spec.loops.entry(n).or_default().push_str(&l) }
+            s if s.starts_with("loop ") => { let n: usize = s[5..].trim().split_whitespace().next().unwrap().parse().unwrap(); spec.loops.entry(n).or_default().push_str(&l) }
             _ => panic!("unknown section {}", sec),
         }
     }
@@ -171,6 +173,7 @@ pub fn parse_unit(text: &str) -> Unit {
             "ghost-arg" => { let v: Vec<&str> = rest.split_whitespace().collect(); u.ghost_args.push((v[0].into(), v[1].trim_start_matches("*.").into(), v[2..].join(" "))); }
             "outline-contains" => u.outline_contains.extend(rest.split_whitespace().map(|s| s.to_string())),
             "refcell-mut-unless" => { let mut it = rest.split_whitespace(); let feat = it.next().unwrap().to_string(); for f in it { u.refcell_mut_unless.push((feat.clone(), f.to_string())); } }
+            "copy-borrow" => { let mut it = rest.split_whitespace(); let f = it.next().unwrap().to_string(); for v in it { u.copy_borrow.push((f.clone(), v.to_string())); } }
             "refcell-field" => u.refcell_fields.extend(rest.split_whitespace().map(|s| s.to_string())),
             "fn" => { cur_fn = Some(rest.trim().to_string()); section = None; u.fns.insert(rest.trim().to_string(), FnSpec::default()); }
             "ret" => { u.fns.get_mut(cur_fn.as_ref().unwrap()).unwrap().ret = Some(rest.trim().to_string()); }
@@ -182,6 +185,7 @@ pub fn parse_unit(text: &str) -> Unit {
             "after-let" => { u.fns.get_mut(cur_fn.as_ref().unwrap()).unwrap().after_let.push((norm(rest), String::new())); section = Some(line.to_string()); }
             "requires" | "ensures" | "decreases" | "start" | "return" | "attrs" | "loop" => {
                 section = Some(if kw == "loop" { line.trim().to_string() } else { kw.to_string() });
+                if kw == "loop" { let mut it = rest.split_whitespace(); let n: usize = it.next().unwrap().parse().unwrap(); if it.next() == Some("if") { let c = it.next().unwrap().to_string(); u.fns.get_mut(cur_fn.as_ref().unwrap()).unwrap().loops_cond.insert(n, c); } }
                 if kw != "loop" && !rest.trim().is_empty() { push(&mut u, &cur_fn, &section, &format!("    {}", rest)); }
             }
             _ => panic!("vspec: unknown keyword {:?} in line {}", kw, i),
